@@ -35,7 +35,9 @@ func WithNodeSpacing(spacing float64) Option {
 func WithNodeSize(sizes map[string]graph.Size) Option {
 	return func(o *options) {
 		o.params.NodeSizeFunc = func(n *ig.Node) {
-			n.Size = sizes[n.ID]
+			if size, ok := sizes[n.ID]; ok {
+				n.Size = size
+			}
 		}
 	}
 }
